@@ -2,7 +2,7 @@
    Statements only (copied from the lemma libraries); every proof is a bare
    `exact`; see the cited files in coq/proofs for the proofs. *)
 From Coq Require Import List NArith ZArith Bool Arith Sorting.Sorted Sorting.Permutation.
-From D2P Require Import Str Err Xml TableTypes Tables Fmt Bullets Merge Collector Walk ShapeFacts TokFacts FrameFacts MergeFacts.
+From D2P Require Import Str Err Xml TableTypes Tables Fmt Bullets Merge Collector Walk ShapeFacts TokFacts FrameFacts MergeFacts Predicates SeqFacts LineageFacts BulletsFacts.
 Import ListNotations.
 
 (* refinement to the declarative spec: walking a paragraph whose content is inline (any nesting of runs, wrappers, unknown elements, hyperlinks, pictures, forms, equations; no nested paragraph, table cell, note or comment marker) appends exactly ONE record after all earlier ones, pointing at that element, with its style, whose tokens are: queued note label, list marker, then the contributions of its children in document order - nothing else, nothing twice, nothing from elsewhere; the open-paragraph stack and comment ranges are untouched *)
@@ -119,3 +119,32 @@ Theorem C02_caret_moves_keep_paragraphs :
   pars_at 4%nat (c_tree s) = Ok ps -> pars_at 4%nat (c_tree s') = Ok ps.
 Proof. exact set_caret_pars. Qed.
 Print Assumptions C02_caret_moves_keep_paragraphs.
+
+(* a whole part (w:document/w:body or similar container) of simple paragraphs: the n-th extracted record points at the n-th source paragraph - document order, one record each - and the list counters are the history fold (C08) *)
+Theorem C02_whole_part_of_paragraphs :
+  forall v e ks path s',
+  mem_str (e_ptag e) depth_none_tags = true -> forallb simple_par ks = true ->
+  collect_from v path (AE e ks) = Ok s' ->
+  exists new, pars_at 4%nat (c_tree s') = Ok new
+    /\ map p_elem new = map (fun n => Some (n :: path)) (seq 0%nat (length ks))
+    /\ forall numId ilvl,
+         count_of (c_counters s') numId ilvl
+         = spec_rev (items_rev (map par_fmt ks) []) numId ilvl.
+Proof. exact collect_body_of_simple_pars. Qed.
+Print Assumptions C02_whole_part_of_paragraphs.
+
+(* any run of sibling paragraphs, from any state: records appended in order, one per paragraph *)
+Theorem C02_paragraph_sequence_partial :
+  forall v ks path i s s' ps,
+  forallb simple_par ks = true -> Inv s -> c_open s = [] ->
+  kids_loop v path ks i s = Ok s' ->
+  pars_at 4%nat (c_tree s) = Ok ps ->
+  exists new, pars_at 4%nat (c_tree s') = Ok (ps ++ new)
+    /\ length new = length ks
+    /\ Forall2 (fun k p => exists e eks j, k = AE e eks /\ p_elem p = Some (j :: path)
+                                          /\ get_pStyle e eks = Ok (p_style p)) ks new
+    /\ (forall n, (n < length ks)%nat ->
+                  nth_error (map p_elem new) n = Some (Some ((i + n)%nat :: path)))
+    /\ c_open s' = [] /\ Inv s'.
+Proof. exact kids_of_simple_pars_partial. Qed.
+Print Assumptions C02_paragraph_sequence_partial.
